@@ -1150,6 +1150,20 @@ pub fn spaces(tier: Tier) -> Vec<Space> {
             if let Tri::Ok(got) = call_plain(acc, || a.to_pubkey_hash()) {
                 eq_bytes(acc, case, &input, "P2PKHAddress::set_chain_params/hash160", &got, h);
             }
+            // the named parameter sets: mainnet for prefix 0x00; testnet, regtest and STN share prefix 0x6f
+            let named: Vec<(&str, ChainParams)> = match prefix {
+                0x00 => vec![("mainnet", ChainParams::mainnet())],
+                0x6f => vec![("testnet", ChainParams::testnet()), ("regtest", ChainParams::regtest()), ("stn", ChainParams::stn())],
+                _ => vec![],
+            };
+            for (name, params) in named {
+                if let Some(b) = mcall(acc, case, &input, "P2PKHAddress::set_chain_params", || a0.set_chain_params(&params)) {
+                    acc.traces += 1;
+                    if let Some(s) = mcall(acc, case, &input, "P2PKHAddress::to_string", || b.to_string()) {
+                        eq_str(acc, case, &input, &format!("P2PKHAddress::set_chain_params({})/string", name), &s, &ref_s);
+                    }
+                }
+            }
             // re-prefixing back gives the mainnet address again
             if let Some(back) = mcall(acc, case, &input, "P2PKHAddress::set_chain_params", || a.set_chain_params(&chain(0))) {
                 acc.traces += 1;
